@@ -6,7 +6,7 @@
      - asyncio.Lock (FIFO hand-over, no barging while waiters exist) and the point at which a
        caller selects the state object whose method will run. *)
 From Coq Require Import ZArith NArith List Bool.
-From SlskGen Require Import TransGen.
+From SlskGen Require Import TransGen TransferGen.
 From Slsk Require Import C03.Spec.
 Import ListNotations.
 
@@ -57,9 +57,6 @@ Definition set_bytes (t : transfer) (n : N) : transfer :=
 Definition set_local (t : transfer) (l : bool) (fs : option N) (f : bool) : transfer :=
   mkT (t_state t) (t_dir t) (t_fail t) (t_abort t) (t_rq t) (t_place t) fs (t_bytes t) (t_qatt t) (t_uatt t)
       (t_start t) (t_complete t) l f (t_rqtask t) (t_trtask t).
-Definition set_queue_vars (t : transfer) : transfer :=
-  mkT (t_state t) (t_dir t) (t_fail t) (t_abort t) false None (t_filesize t) (t_bytes t) 0%N 0%N
-      (t_start t) (t_complete t) (t_local t) (t_file t) (t_rqtask t) (t_trtask t).
 Definition set_tasks (t : transfer) (a b : tstat) : transfer :=
   mkT (t_state t) (t_dir t) (t_fail t) (t_abort t) (t_rq t) (t_place t) (t_filesize t) (t_bytes t) (t_qatt t) (t_uatt t)
       (t_start t) (t_complete t) (t_local t) (t_file t) a b.
@@ -77,6 +74,63 @@ Definition finish_cancel (t : transfer) : transfer := set_tasks t TNone TNone.
 Definition clear_local (t : transfer) : transfer := set_local t false (t_filesize t) (t_file t).
 Definition remove_file (t : transfer) : transfer := set_local t (t_local t) (t_filesize t) false.
 
+(* The Transfer helper methods (transfer/model.py) are regenerated as lists of field steps (SlskGen.TransferGen);
+   this is their interpretation on the abstract record.  Fields the record does not carry (_offset, _speed_log,
+   last_*_attempt, which are 0.0 exactly when the counter is 0) are skipped. *)
+Definition supported (f : tfield) (v : fval) : bool :=
+  match f, v with
+  | F_local_path, VNone | F_filesize, VNone | F_bytes_transfered, VZero | F_place_in_queue, VNone
+  | F_remotely_queued, VFalse | F_queue_attempts, VZero | F_last_queue_attempt, VZero
+  | F_upload_request_attempts, VZero | F_last_upload_request_attempt, VZero
+  | F_start_time, VNone | F_start_time, VNow | F_complete_time, VNone | F_complete_time, VNow
+  | F_offset, _ | F_speed_log, _ => true
+  | _, _ => false
+  end.
+
+Definition set_field (f : tfield) (v : fval) (t : transfer) : transfer :=
+  match f, v with
+  | F_local_path, VNone => set_local t false (t_filesize t) (t_file t)
+  | F_filesize, VNone => set_local t (t_local t) None (t_file t)
+  | F_bytes_transfered, VZero => set_bytes t 0%N
+  | F_place_in_queue, VNone =>
+      mkT (t_state t) (t_dir t) (t_fail t) (t_abort t) (t_rq t) None (t_filesize t) (t_bytes t) (t_qatt t) (t_uatt t)
+          (t_start t) (t_complete t) (t_local t) (t_file t) (t_rqtask t) (t_trtask t)
+  | F_remotely_queued, VFalse => set_rq t false
+  | F_queue_attempts, VZero =>
+      mkT (t_state t) (t_dir t) (t_fail t) (t_abort t) (t_rq t) (t_place t) (t_filesize t) (t_bytes t) 0%N (t_uatt t)
+          (t_start t) (t_complete t) (t_local t) (t_file t) (t_rqtask t) (t_trtask t)
+  | F_upload_request_attempts, VZero =>
+      mkT (t_state t) (t_dir t) (t_fail t) (t_abort t) (t_rq t) (t_place t) (t_filesize t) (t_bytes t) (t_qatt t) 0%N
+          (t_start t) (t_complete t) (t_local t) (t_file t) (t_rqtask t) (t_trtask t)
+  | F_start_time, VNone => set_times t false (t_complete t)
+  | F_start_time, VNow => set_times t true (t_complete t)
+  | F_complete_time, VNone => set_times t (t_start t) false
+  | F_complete_time, VNow => set_times t (t_start t) true
+  | _, _ => t
+  end.
+
+Fixpoint run_fields (l : list fstep) (t : transfer) : transfer :=
+  match l with
+  | [] => t
+  | FAssign f v :: r => run_fields r (set_field f v t)
+  | FIfStarted b :: r =>
+      run_fields r (if t_start t then (fix go (b : list fstep) (t : transfer) : transfer :=
+                                         match b with
+                                         | FAssign f v :: b' => go b' (set_field f v t)
+                                         | _ => t
+                                         end) b t else t)
+  end.
+
+Fixpoint steps_supported (l : list fstep) : bool :=
+  match l with
+  | [] => true
+  | FAssign f v :: r => supported f v && steps_supported r
+  | FIfStarted b :: r => forallb (fun x => match x with FAssign f v => supported f v | FIfStarted _ => false end) b && steps_supported r
+  end.
+Definition methods_supported_b : bool :=
+  forallb steps_supported [m_reset_local_vars; m_reset_progress_vars; m_reset_queue_vars; m_reset_time_vars;
+                           m_set_start_time; m_set_complete_time].
+
 (* Effect atoms that do not suspend.  The edge reported to the listeners is (state before, new state):
    Transfer.transition reads self.state at that moment. *)
 Definition apply_eff (c : call) (t : transfer) (e : effect) : transfer * list edge :=
@@ -86,12 +140,12 @@ Definition apply_eff (c : call) (t : transfer) (e : effect) : transfer * list ed
   | SetAbortReason => (set_abort t (c_reason c), [])
   | ClearAbortReason => (set_abort t None, [])
   | SetRemotelyQueued => (set_rq t (c_remotely c), [])
-  | ResetTimeVars => (set_times t false false, [])
-  | ResetProgressVars => (set_bytes t 0%N, [])
-  | ResetLocalVars => (set_local t false None (t_file t), [])
-  | SetStartTime => (set_times t true false, [])
-  | SetCompleteTime => (if t_start t then set_times t true true else t, [])
-  | ResetQueueVars => (set_queue_vars t, [])
+  | ResetTimeVars => (run_fields m_reset_time_vars t, [])
+  | ResetProgressVars => (run_fields m_reset_progress_vars t, [])
+  | ResetLocalVars => (run_fields m_reset_local_vars t, [])
+  | SetStartTime => (run_fields m_set_start_time t, [])
+  | SetCompleteTime => (run_fields m_set_complete_time t, [])
+  | ResetQueueVars => (run_fields m_reset_queue_vars t, [])
   | Transition s' => (set_state t s', [(t_state t, s')])
   | CancelTasks => (finish_cancel t, [])                 (* run to completion (sequential use only) *)
   | RemoveLocalFile =>
@@ -289,3 +343,12 @@ Definition effects_ok_b : bool :=
                                           | Some s' => implb (dir_ok d s) (forallb (fun r => existsb (effect_beq r) effs) (required s d o s'))
                                           | None => true end
                            end).
+
+(* ---------- TransferManager.abort / queue / pause (regenerated: TransferGen.mgr_op) ---------- *)
+Inductive mres : Type := MOk | MInvalidStateTransition.
+Definition REQUESTED_ID : N := 1%N.
+Definition mgr_call (m : mop) : call :=
+  let '(o, req) := mgr_op m in mkCall o (if req then Some REQUESTED_ID else None) false.
+Definition mgr_step (t : transfer) (m : mop) : transfer * mres * list edge :=
+  let '(t', b, ed) := step_seq t (mgr_call m) in
+  (t', if negb mgr_raises_iff_refused || b then MOk else MInvalidStateTransition, ed).
